@@ -128,7 +128,7 @@ func (o stepOut) render() string {
 
 type event struct {
 	op     string
-	class  string // htlc | replay | cancel | settle | timeout | height | restart | noop
+	class  string // htlc | replay | cancel | settle | timeout | height | restart | expire | noop
 	spec   htlcSpec
 	key    int
 	right  bool // settle: right preimage
@@ -165,6 +165,9 @@ type World struct {
 	ghost []map[int]string
 	// scheme: the values of the circuit keys k1..k8
 	scheme *keyScheme
+	// expired: the "X" event has moved the watcher's clock past the invoice's time expiry
+	// (Watch kinds; at most once per history)
+	expired bool
 }
 
 type worldOpts struct {
@@ -281,6 +284,20 @@ func (w *World) Key() string {
 	}
 	var b strings.Builder
 	fmt.Fprintf(&b, "%s/%s h+%d | %s |", w.kind.Name, w.scheme.Name, w.hOff, w.last[0].canon())
+	// Live expiry watcher (Watch kinds): its instance keeps (a) its clock -- moved only by "X",
+	// once: the flag; (b) its height = base + hOff ("b" hands it every block, a restart starts it
+	// at the current height); (c) a time-expiry entry per invoice it was handed while Open: the
+	// bystander's never fires; the one of the invoice under test matters only when "X" comes and
+	// exists iff tsQueued (provenance: a restart re-creates it only for an Open invoice); (d) a
+	// height entry per completed set of a hold invoice / per hold invoice found Accepted at
+	// start-up, carrying the lowest expiry of the accepted HTLCs at that moment: it matters only
+	// while the invoice is Accepted, and then it exists and its height is the lowest expiry of
+	// the accepted HTLCs in the store, because in the Watch spaces all HTLCs that join an
+	// Accepted invoice later (keysend duplicates) carry the same expiry (one "ok" expiry value
+	// in the kshold-x alphabet; hold-x invoices take no HTLC once Accepted).
+	if w.kind.Watch {
+		fmt.Fprintf(&b, " watcher expired=%v ts=%v |", w.expired, w.sides[0].tsQueued)
+	}
 	// in-memory state of the registry instance (provenance: a restarted registry has neither
 	// subscriptions nor timers for the HTLCs it finds accepted in the store): per accepted
 	// HTLC whether this instance holds its subscription / timer, and -- while the invoice is
@@ -391,6 +408,14 @@ func (w *World) parse(op string) (event, error) {
 		return event{op: op, class: "timeout"}, nil
 	case op == "R":
 		return event{op: op, class: "restart"}, nil
+	case op == "X":
+		// time expiry: once per history; for a just-in-time kind only while the invoice exists
+		// (an invoice created after the jump would be born expired, and the watcher's cancel
+		// would race with the notification that creates it)
+		if !w.kind.Watch || w.expired || (w.kind.JIT != "" && !w.last[0].Found) {
+			return event{op: op, class: "noop"}, nil
+		}
+		return event{op: op, class: "expire"}, nil
 	case op == "b":
 		if w.hOff >= 2 {
 			return event{op: op, class: "noop"}, nil
@@ -453,6 +478,17 @@ func (w *World) apply(s *side, ev event, pre invObs) stepOut {
 		out.delivered = s.drain()
 	case "timeout":
 		out.delivered = s.timeout(pre)
+	case "expire":
+		s.expire()
+	case "height":
+		// Watch kinds only: the watcher is told the new block
+		s.epoch(w.height())
+	}
+	if s.kind.Watch {
+		// the watcher reacts to registry calls too (AddInvoices of a completed hold set): let it
+		// finish inside the event
+		s.waitWatcherIdle()
+		out.delivered = append(out.delivered, s.drain()...)
 	}
 	w.st.op()
 	out.post = s.lookup()
@@ -492,7 +528,9 @@ func (w *World) Do(op string) error {
 		if w.logf != nil {
 			w.logf("%s: height is now %d", op, w.height())
 		}
-		return nil
+		if !w.kind.Watch {
+			return nil
+		}
 	}
 	outs := make([]stepOut, len(w.sides))
 	pre0 := w.last[0]
@@ -511,6 +549,18 @@ func (w *World) Do(op string) error {
 		}
 		w.judge(s, ev, pre, outs[i])
 		w.last[i] = outs[i].post
+		// which time-expiry entry the running watcher instance holds (see Key)
+		switch {
+		case ev.class == "expire":
+			s.tsQueued = false
+		case ev.class == "restart":
+			s.tsQueued = outs[i].post.Found && outs[i].post.State == "Open"
+		case !pre.Found && outs[i].post.Found:
+			s.tsQueued = true
+		}
+	}
+	if ev.class == "expire" {
+		w.expired = true
 	}
 	w.account(ev, outs[0])
 	if len(w.sides) == 2 {
@@ -618,6 +668,28 @@ func (w *World) judge(s *side, ev event, pre invObs, out stepOut) {
 	if pre.Found && !post.Found {
 		// the two configured garbage collections
 		gcFly := ev.class == "cancel" && w.kind.GcFly && out.callErr == "" && pre.State != "Settled"
+		// the expiry watcher cancels through the same cancelInvoiceImpl (time expiry, or block
+		// expiry of an accepted hold invoice): a canceled invoice is then deleted on the fly too
+		// -- but only a CANCELED invoice: cancelInvoiceImpl orders every HTLC it canceled failed
+		// before it deletes, so every HTLC that was accepted and has a live subscription on this
+		// registry instance must have got its cancel order in this very event
+		if w.kind.Watch && w.kind.GcFly && (ev.class == "expire" || ev.class == "height") && pre.State != "Settled" {
+			gcFly = true
+			for _, h := range pre.Htlcs {
+				if h.State != "acc" || !s.armed[h.Key] {
+					continue
+				}
+				ordered := false
+				for _, d := range out.delivered {
+					if d.Kind == "fail" && d.Key == h.Key {
+						ordered = true
+					}
+				}
+				if !ordered {
+					gcFly = false
+				}
+			}
+		}
 		gcStart := ev.class == "restart" && w.kind.GcStart && pre.State == "Canceled"
 		if gcFly || gcStart {
 			w.st.clause("invoice-garbage-collected")
@@ -632,7 +704,7 @@ func (w *World) judge(s *side, ev event, pre invObs, out stepOut) {
 			w.violate("monotone-invoice-vanished", store, ev.class, fmt.Sprintf("after %s the invoice can no longer be looked up (%s)", ev.op, post.Err))
 		}
 	}
-	if w.two && (ev.class == "cancel" || ev.class == "restart" || ev.spec.foreign()) {
+	if w.two && (ev.class == "cancel" || ev.class == "restart" || ev.class == "expire" || ev.class == "height" || ev.spec.foreign()) {
 		w.st.clause("bystander")
 		if b := s.lookupBystander(); b.canon() != w.bystander[si].canon() {
 			w.violate("bystander-touched", store, ev.class+":"+string(rune0(ev.spec.Pay))+string(rune0(ev.spec.Addr)),
